@@ -296,3 +296,28 @@ def sparse_board(rng, size):
     if all(s != "_" for s in b):
         b[rng.randrange(len(b))] = "_"
     return b
+
+
+def blob_and_road(rng, size, colour):
+    """a straight road of `colour` along one row (or column) plus a LARGE group of the same colour
+    that touches the same starting edge but spans nothing (the work list of a flood fill gets long
+    before the road's own seed is reached)"""
+    horiz = rng.random() < 0.5
+    k = rng.randrange(size)  # the road's row / column
+    gap = rng.choice([i for i in range(size) if abs(i - k) >= 2] or [None])
+    b = ["_"] * (size * size)
+    for y in range(size):
+        for x in range(size):
+            a, c = (x, y) if horiz else (y, x)  # a runs along the road, c across
+            if c == k:
+                t = FLAT[colour]
+            elif gap is not None and c == gap:
+                t = "_"
+            elif (c < k) == (gap is not None and gap < k) and gap is not None and abs(c - k) == 1 and False:
+                t = "_"
+            elif a < size - 1 and abs(c - k) >= 2:
+                t = FLAT[colour]  # the blob: every row but the road's neighbours, one short of the far edge
+            else:
+                t = "_"
+            b[x + y * size] = t
+    return b
